@@ -27,6 +27,10 @@ KINDS = ["f", "i", "b", "s", "s", "u", "d", "t", "tm", "ts", "td", "o", "oi", "y
 def _plan(draw, max_len):
     kind = draw(st.sampled_from(KINDS))
     n = draw(st.one_of(st.sampled_from([0, 1, 2, 3]), st.integers(0, max_len)))
+    if max_len > 10 and kind != "oi" and draw(st.integers(0, 19)) == 0:
+        # long vectors (beyond NumPy's small-array sort paths), laid out from a few base values
+        n = draw(st.sampled_from(gen.BIG_SIZES))
+        return {"kind": kind, "vals": draw(gen.big_values(kind, n, na="asis"))}
     if kind == "oi":
         vals = [draw(st.sampled_from([None, 0, 1, 2, 3, 9])) for _ in range(n)]
         if draw(st.integers(0, 9)) == 0:
